@@ -210,7 +210,9 @@ def _covers(out, gb_case, tol=1e-9):
     oy, ox = out.shape
     a, b, c0, d, e, f0 = (float(v) for v in Ao.m)
     lin_min = min(math.hypot(a, d), math.hypot(b, e))
-    tol = tol + 64 * EPS * max(abs(c0), abs(f0), abs(gb_case["affine"][2]), abs(gb_case["affine"][5])) / lin_min
+    cond = float(np.linalg.cond(np.array([[a, b], [d, e]])))
+    # float error of the derived coefficients, seen through the inverse (amplified by the condition number)
+    tol = tol + 64 * EPS * max(abs(c0), abs(f0), abs(gb_case["affine"][2]), abs(gb_case["affine"][5])) / lin_min + 64 * EPS * cond * (nx + ny + ox + oy)
     for c in ((0, 0), (nx, 0), (nx, ny), (0, ny)):
         x, y = P * c
         require(-tol <= x <= ox + tol and -tol <= y <= oy + tol, "derived box %r does not cover original corner %r (maps to pixel %.9g, %.9g)", tuple(out.shape), c, float(x), float(y))
